@@ -37,6 +37,10 @@ CLAIMED = {
          "All argument lists of up to 2-3 inputs over table/figure x colour x header/footer x 1-2 pages (exhaustive), lists with missing files, simulated lists of up to 6 inputs incl. landscape: the files are written by write_rtf, assembled by assemble_rtf, read back, and TLC checks well-formedness, page-by-page equality with the concatenated inputs, restated geometry at each input's first page, single-input identity, empty list and missing file behaviour."),
  "C18": ("5 C18", "TLC model checking of spec/Export.tla (fault points x converter outcomes x target states x writers) + TLC trace validation (spec/ExportTrace.tla) of file-system events and before/after snapshots of real exports with injected faults",
          "Every scenario TLC enumerates is executed: converter stubs for all outcomes, targets absent/existing/in a missing directory, and a BaseException or Exception raised at the first instance of every distinct library call site (thorough: 2500 sampled call instances, all writers); TLC checks that a failure leaves the target bytes, its directory listing and the temporary directory unchanged, that a success puts exactly the expected bytes (and the HTML resource folder) at the target, and that the target is touched only by the final step."),
+ "C10": ("5 C10", "TLC model checking of spec/UniEsc.tla (escape -> write -> read per code-point class and text position) + TLC trace validation (spec/UniTrace.tla) of files written by write_rtf and decoded from their bytes",
+         "Class representatives x 12 text positions x conversion on/off (TLC-enumerated), random mixed strings, and a code-point sweep through body cells (quick: boundaries +-64 and 30 000 sampled; thorough: every scalar value except C0/C1 controls): TLC checks that the reader decodes exactly the input, that every \\u argument is within -32768..32767 and is followed by exactly uc fallback characters."),
+ "C11": ("5 C11", "TLC model checking of the documented scanner (spec/TextScan.tla, spec/TextConv.tla) + trace validation (spec/TextTrace.tla): the scanner consumes the reader's events of the rendered run action by action",
+         "All abstract strings up to length 3 (thorough 4) over an 18-symbol alphabet in both modes (TLC, exhaustive) and longer simulated ones, each of the 682 table commands in 6 (thorough 40) context templates, probe strings in every component kind with default and overridden text_convert, per-cell text_convert: the real rendering is read back and TLC replays the documented scanner against the reader's events."),
 }
 PENDING = {}
 
